@@ -100,35 +100,36 @@ type FnGen struct {
 	callOrd    map[ssa.Instruction]int
 	defers     []*ssa.Defer
 
-	outOfSubset []string
-	assumptions map[string]bool
-	usedExtern  map[string]bool
-	defaultPure map[string]bool
-	sweep       bool // zero-annotation mode: missing invariants default to true
-	curBlock    *ssa.BasicBlock
-	curGuard    string
-	st          State
-	entryVals   map[string]string // decreases measure at entry
-	ghostLocals map[string]Val
-	qfacts      []QFact
-	autoInvs    map[*ssa.BasicBlock][]autoInv
+	outOfSubset     []string
+	assumptions     map[string]bool
+	usedExtern      map[string]bool
+	defaultPure     map[string]bool
+	sweep           bool // zero-annotation mode: missing invariants default to true
+	curBlock        *ssa.BasicBlock
+	curGuard        string
+	st              State
+	entryVals       map[string]string // decreases measure at entry
+	ghostLocals     map[string]Val
+	qfacts          []QFact
+	sumUnfolded     map[string]bool
+	autoInvs        map[*ssa.BasicBlock][]autoInv
 	loopTypeInvObjs map[*ssa.BasicBlock][]Val
 
 	ownAllocs map[string][]ownAlloc // type name -> objects allocated here (invariant not yet assumed)
 	dirty     map[string][]dirtyObj // type name -> pre-existing objects whose invariant fields were written
 
-	domainTerm string        // the contract's domain predicate at entry ("" if none)
-	locals    map[string]Val // source-level locals (from DebugRef), latest value seen
-	localDefs map[string][]localDef
-	curIdx    int
-	obNames   map[string]int
-	cellVars  map[string]Val // source variables that live in heap cells (captured by closures)
-	allAllocs []string
-	heapDefs  map[string][3]string
-	heapItes  map[string][3]string
-	allocSet  map[string]bool
-	paramSet  map[string]bool
-	covers  []*Cover
+	domainTerm string         // the contract's domain predicate at entry ("" if none)
+	locals     map[string]Val // source-level locals (from DebugRef), latest value seen
+	localDefs  map[string][]localDef
+	curIdx     int
+	obNames    map[string]int
+	cellVars   map[string]Val // source variables that live in heap cells (captured by closures)
+	allAllocs  []string
+	heapDefs   map[string][3]string
+	heapItes   map[string][3]string
+	allocSet   map[string]bool
+	paramSet   map[string]bool
+	covers     []*Cover
 
 	parent      *FnGen // non-nil while symbolically executing an inlined callee
 	labelPrefix string
@@ -151,7 +152,7 @@ func NewFnGen(P *Program, S *Specs, E *Effects, fn *ssa.Function) *FnGen {
 		blockGuard: map[*ssa.BasicBlock]string{}, exitState: map[*ssa.BasicBlock]State{},
 		edgeCond: map[[2]*ssa.BasicBlock]string{}, loops: map[*ssa.BasicBlock]*loopInfo{},
 		env: map[string]Val{}, siteNames: map[ssa.Instruction]string{}, callOrd: map[ssa.Instruction]int{},
-		assumptions: map[string]bool{}, usedExtern: map[string]bool{}, defaultPure: map[string]bool{}, autoInvs: map[*ssa.BasicBlock][]autoInv{}, loopTypeInvObjs: map[*ssa.BasicBlock][]Val{}, entryGuard: "true", inlined: map[string]bool{}, ownAllocs: map[string][]ownAlloc{}, dirty: map[string][]dirtyObj{}}
+		assumptions: map[string]bool{}, usedExtern: map[string]bool{}, defaultPure: map[string]bool{}, autoInvs: map[*ssa.BasicBlock][]autoInv{}, loopTypeInvObjs: map[*ssa.BasicBlock][]Val{}, entryGuard: "true", inlined: map[string]bool{}, ownAllocs: map[string][]ownAlloc{}, dirty: map[string][]dirtyObj{}, sumUnfolded: map[string]bool{}}
 	g.C = S.Contracts[g.name]
 	g.D.ensureLive()
 	return g
@@ -478,6 +479,8 @@ func typeInvName(t types.Type) string {
 	return typeName(p.Elem())
 }
 
+// typeInvTerm is the quantifier-free part of the invariant (clauses with an unbounded quantifier
+// are handled clause by clause through assumeTypeInvAt / obligeTypeInv).
 func (g *FnGen) typeInvTerm(v Val, st State) string {
 	tn := typeInvName(v.Go)
 	invs := g.S.TypeInvs[tn]
@@ -486,10 +489,71 @@ func (g *FnGen) typeInvTerm(v Val, st State) string {
 	}
 	var parts []string
 	for _, c := range invs {
+		if hasUnboundedQuant(c.E) {
+			continue
+		}
 		ctx := &EvalCtx{g: g, env: map[string]Val{"self": v}, st: st, oldSt: st}
 		parts = append(parts, g.evalBool(c.E, ctx))
 	}
 	return and(parts...)
+}
+
+func hasUnboundedQuant(e Expr) bool {
+	switch x := e.(type) {
+	case EForall:
+		return x.Lo == nil || hasUnboundedQuant(x.Body)
+	case EUnary:
+		return hasUnboundedQuant(x.X)
+	case EBinary:
+		return hasUnboundedQuant(x.X) || hasUnboundedQuant(x.Y)
+	case ECall:
+		for _, a := range x.Args {
+			if hasUnboundedQuant(a) {
+				return true
+			}
+		}
+	case ESel:
+		return hasUnboundedQuant(x.X)
+	case EIndex:
+		return hasUnboundedQuant(x.X) || hasUnboundedQuant(x.I)
+	case ETypeAssert:
+		return hasUnboundedQuant(x.X)
+	}
+	return false
+}
+
+func (g *FnGen) quantTypeInvs(v Val) []Clause {
+	var out []Clause
+	for _, c := range g.S.TypeInvs[typeInvName(v.Go)] {
+		if hasUnboundedQuant(c.E) {
+			out = append(out, c)
+		}
+	}
+	return out
+}
+
+// assumeTypeInvAt assumes the whole invariant of v in state st; quantified clauses are remembered
+// as instantiable facts.
+func (g *FnGen) assumeTypeInvAt(guard string, v Val, st State, origin string) {
+	if t := g.typeInvTerm(v, st); t != "" {
+		g.assume(guard, t, origin)
+	}
+	for _, c := range g.quantTypeInvs(v) {
+		ctx := &EvalCtx{g: g, env: map[string]Val{"self": v}, st: st, oldSt: st}
+		g.assumeClause(guard, c.E, ctx, origin)
+	}
+}
+
+// obligeTypeInv emits the invariant of v in state st as obligations: one for the quantifier-free
+// part (under the given label) and one per quantified clause (label:clause-name), skolemised.
+func (g *FnGen) obligeTypeInv(kind, label, guard string, v Val, st State, desc string, pos token.Pos) {
+	if t := g.typeInvTerm(v, st); t != "" {
+		g.oblige(kind, label, guard, t, desc, pos)
+	}
+	for _, c := range g.quantTypeInvs(v) {
+		ctx := &EvalCtx{g: g, env: map[string]Val{"self": v}, st: st, oldSt: st}
+		g.obligeClause(kind, label+":"+c.Name, guard, c, ctx, pos)
+	}
 }
 
 func (g *FnGen) assumeTypeInv(v Val, guard string) {
@@ -505,7 +569,7 @@ func (g *FnGen) assumeTypeInv(v Val, guard string) {
 	for _, a := range r.ownAllocs[tn] {
 		conds = append(conds, not("(= "+v.T+" "+a.term+")"))
 	}
-	g.assume(guard, implies(and(conds...), g.typeInvTerm(v, g.st)), "typeinv:"+tn)
+	g.assumeTypeInvAt(and(guard, and(conds...)), v, g.st, "typeinv:"+tn)
 }
 
 // ---------------------------------------------------------------------------------------
